@@ -696,12 +696,16 @@ End Walk.
 (* ------------------------------------------------------------------ rejection before execution
    What ParseExecutable (parser + Executable.Validate) refuses among the defects of property C10:
    a directive that is not defined or not allowed at the place (every directive other than @skip/@include
-   in these documents), @skip/@include without a Boolean-literal-or-variable condition, an inline
+   and the schema's own @d8 in these documents), @skip/@include without a Boolean-literal-or-variable condition, an inline
    fragment on an undefined type, a repeated argument.  A fragment DEFINITION on an undefined type is
    accepted (finding F10a). *)
+(* the one executable directive of its own every schema of the harness declares:
+   directive @d8 on FIELD | FRAGMENT_SPREAD | INLINE_FRAGMENT (it has no part in choosing selections) *)
+Definition DECLARED_DIR : nat := 8.
+
 Definition dir_rejects (d : dir) : bool :=
   match d_name d, d_if d with
-  | DOther _, _ => true
+  | DOther n, _ => negb (Nat.eqb n DECLARED_DIR)
   | _, Some (VBool _) | _, Some (VVar _) => false
   | _, _ => true
   end.
